@@ -9,6 +9,88 @@ def styleDebugName : CaseStyle → String
 
 abbrev Env := Std.HashMap String EnumDef
 
+structure RawInfo where
+  kind : ItemKind := .enum
+  lifetimes : Nat := 0
+  enumAttrs : List EnumAttr := []
+  discAttrs : List DiscAttr := []
+  varAttrs : List (List VarAttr) := []
+  fieldDw : List (List Nat) := []
+
+abbrev RawEnv := Std.HashMap String RawInfo
+
+def decodeEnumAttr (s : String) : Option EnumAttr :=
+  match s with
+  | "sa1" => some (.serializeAll true) | "sa0" => some (.serializeAll false) | "ci" => some .ci
+  | "crate" => some .crate | "phf" => some .usePhf | "pfx" => some .pfx | "pty" => some .parseErrTy
+  | "pfn" => some .parseErrFn | "cis" => some .constIntoStr
+  | _ => none
+
+def decodeDiscAttr (s : String) : Option DiscAttr :=
+  match s with
+  | "derive" => some .derive | "name" => some .name | "vis" => some .vis | "doc" => some .doc | "other" => some .other
+  | _ => none
+
+def decodeLit (s : String) : Option LitKind :=
+  match s with
+  | "s" => some .str | "i" => some .int | "b" => some .bool | "f" => some .float | "c" => some .char
+  | "y" => some .byte | "Y" => some .byteStr
+  | _ => none
+
+def decodeVarAttr (s : String) : Option VarAttr :=
+  match s.splitOn ":" with
+  | ["msg"] => some .message | ["det"] => some .detailed | ["ser"] => some .serialize | ["ts"] => some .toString
+  | ["tr"] => some .transparent | ["dis"] => some .disabled | ["def"] => some .default | ["dw"] => some .defaultWith
+  | ["ci"] => some .ci
+  | ["props", lits] => ((lits.splitOn ".").filter (· ≠ "")).mapM decodeLit |>.map .props
+  | ["props"] => some (.props [])
+  | _ => none
+
+def listOf {α : Type} (f : String → Option α) (s : String) : Option (List α) :=
+  if s = "-" then some [] else (s.splitOn ",").mapM f
+
+def deriveOfName (s : String) : Option Derive :=
+  match s with
+  | "EnumString" => some .enumString | "Display" => some .display | "AsRefStr" => some .asRefStr
+  | "IntoStaticStr" => some .intoStaticStr | "AsStaticStr" => some .asStaticStr | "ToString" => some .toString
+  | "VariantNames" => some .variantNames | "VariantArray" => some .variantArray | "EnumIter" => some .enumIter
+  | "EnumCount" => some .enumCount | "FromRepr" => some .fromRepr | "EnumIs" => some .enumIs
+  | "EnumTryAs" => some .enumTryAs | "EnumTable" => some .enumTable | "EnumMessage" => some .enumMessage
+  | "EnumProperty" => some .enumProperty | "EnumDiscriminants" => some .enumDiscriminants
+  | _ => none
+
+def showOutcome : Outcome → String
+  | .accept => "accept" | .reject => "reject" | .panic => "panic"
+
+def stepRaw (env : Env) (renv : RawEnv) (toks : List String) : RawEnv × Option String :=
+  match toks with
+  | "raw" :: id :: rest =>
+    let kind := match kv rest "kind" with
+      | some "struct" => ItemKind.struct
+      | some "union" => ItemKind.union
+      | _ => ItemKind.enum
+    let lt := ((kv rest "lt").bind String.toNat?).getD 0
+    match (kv rest "eattrs").bind (listOf decodeEnumAttr), (kv rest "dattrs").bind (listOf decodeDiscAttr) with
+    | some ea, some da => (renv.insert id { kind := kind, lifetimes := lt, enumAttrs := ea, discAttrs := da }, none)
+    | _, _ => (renv, some "bad-raw")
+  | "rawv" :: id :: rest =>
+    match renv[id]?, (kv rest "attrs").bind (listOf decodeVarAttr),
+          (kv rest "fdw").map (fun s => if s = "-" then [] else (s.splitOn ".").filterMap String.toNat?) with
+    | some r, some va, some fd =>
+      (renv.insert id { r with varAttrs := r.varAttrs ++ [va], fieldDw := r.fieldDw ++ [fd] }, none)
+    | _, _, _ => (renv, some "bad-rawv")
+  | ["vop", id, "validate", dv] =>
+    match env[id]?, renv[id]?, deriveOfName dv with
+    | some d, some r, some dv =>
+      (renv, some (showOutcome (validate dv ⟨r.kind, r.lifetimes, r.enumAttrs, r.discAttrs, r.varAttrs, r.fieldDw, d⟩)))
+    | _, _, _ => (renv, some "bad-vop")
+  | ["vop", id, "validatepinned", dv] =>
+    match env[id]?, renv[id]?, deriveOfName dv with
+    | some d, some r, some dv =>
+      (renv, some (showOutcome (validatePinned dv ⟨r.kind, r.lifetimes, r.enumAttrs, r.discAttrs, r.varAttrs, r.fieldDw, d⟩)))
+    | _, _, _ => (renv, some "bad-vop")
+  | _ => (renv, some "bad-line")
+
 def stepLine (env : Env) (line : String) : Env × Option String :=
   match line.trimAscii.toString.splitOn " " with
   | "enum" :: id :: toks =>
@@ -44,16 +126,27 @@ def stepLine (env : Env) (line : String) : Env × Option String :=
   | [""] => (env, none)
   | _ => (env, some "bad-line")
 
-partial def loop (h : IO.FS.Stream) (out : IO.FS.Stream) (env : Env) : IO Unit := do
+partial def loop (h : IO.FS.Stream) (out : IO.FS.Stream) (env : Env) (renv : RawEnv) : IO Unit := do
   let line ← h.getLine
   if line.isEmpty then return ()
-  let (env', o) := stepLine env line
-  match o with
-  | some s => out.putStrLn s
-  | none => pure ()
-  loop h out env'
+  let toks := line.trimAscii.toString.splitOn " "
+  match toks with
+  | t :: _ =>
+    if t = "raw" || t = "rawv" || t = "vop" then
+      let (renv', o) := stepRaw env renv toks
+      match o with
+      | some s => out.putStrLn s
+      | none => pure ()
+      loop h out env renv'
+    else
+      let (env', o) := stepLine env line
+      match o with
+      | some s => out.putStrLn s
+      | none => pure ()
+      loop h out env' renv
+  | [] => loop h out env renv
 
 def main : IO Unit := do
   let out ← IO.getStdout
-  loop (← IO.getStdin) out {}
+  loop (← IO.getStdin) out {} {}
   out.flush
